@@ -4,3 +4,6 @@ import TinsModel.Props.C07
 #print axioms Tins.Props.C07.ident_injective_fails
 #print axioms Tins.Props.C07.ident_injective_partial
 #print axioms Tins.Props.C07.memory_bound
+#print axioms Tins.Props.C07.trace_refines_reference_fails
+#print axioms Tins.Props.C07.trace_refines_reference_partial
+#print axioms Tins.Props.C07.collisionFree_of_no_twins
